@@ -31,10 +31,12 @@ def workloads(tier):
         wl("R+ins-u", [("R", ["select * from t"]), ("W", ["insert into u values (7)"])]),
         wl("R;R+del", [("R", ["select * from u", "select * from t"]), ("W", ["delete from t where a = 2"])]),
     ]
+    if tier == "quick":
+        ws = [w for w in ws if w["name"] != "R+ins-u"]       # the other-table writer is explored in the thorough tier only
     for w in ws:
         two = len(w["actors"]) > 1
         w["bound"] = (1 if two else 2) if tier == "quick" else (2 if two else 3)
-        w["max_execs"] = 2500 if tier == "quick" else 60000       # per shard
+        w["max_execs"] = 1500 if tier == "quick" else 60000       # per shard
     return ws
 
 
